@@ -228,58 +228,71 @@ def _name_indirection(ctx, fn):
 
 
 def rule_4(ctx):
+    """Model.set_cell_value / get_cell_value / Evaluator.evaluate interpreted on abstract models: a value set through an
+    address, a defined name or a cell object lands in the cell object of the cells map - the one the evaluation reads -, is read
+    back by every spelling, and the result of an evaluation is stored in that same object. The model of an extracted sub-model
+    (the name's object is a separate copy of the cell's) is included: input changes must reach the cells map there too."""
+    from xlsa.guards import Interp, Rec, World
+    from xlsa.consteval import Ref
     mm = ctx.mod('model')
-    for name in ('Model.set_cell_value', 'Model.get_cell_value'):
-        fn = ctx.func('model', name)
-        pro = _name_indirection(ctx, fn)
-        ctx.expect(pro is not None, fn, f'{name}: defined name -> cell address',
-                   f'{name} does not translate a defined name into the address of its cell before the lookup')
-        # every access to a cell's value goes through the cells map
-        for n in walk_local(fn):
-            if isinstance(n, ast.Attribute) and n.attr == 'value' and not isinstance(n.value, ast.Name):
-                via_cells = isinstance(n.value, ast.Subscript) and isinstance(n.value.value, ast.Attribute) \
-                    and n.value.value.attr == 'cells'
-                kind = 'write' if isinstance(n.ctx, ast.Store) else 'read'
-                ctx.expect(via_cells, n, f'{name}: {kind} of `{ast.unparse(n)[:45]}`',
-                           f'{name} {kind}s the value on an object that is not taken from the cells map '
-                           '(e.g. the XLCell held by defined_names, which is a different object after extract() or '
-                           'in hand-built models)')
-            elif isinstance(n, ast.Attribute) and n.attr == 'value' and isinstance(n.value, ast.Name) \
-                    and isinstance(n.ctx, ast.Store):
-                ok = _derives_from_cells(n.value, fn)
-                ctx.expect(ok, n, f'{name}: write of `{ast.unparse(n)[:45]}`',
-                           f'{name} writes the value on an object that is not taken from the cells map '
-                           '(e.g. the XLCell held by defined_names)')
-        if name.endswith('set_cell_value'):
-            # an early return before the cells map is touched would skip the write
-            early = [r for r in flow.returns_of(fn)]
-            ctx.expect(not early, fn, f'{name}: no early return', f'{name} returns before updating the cells map on some path')
     em = ctx.mod('evaluator')
+    setf, getf = mm.func('Model.set_cell_value'), mm.func('Model.get_cell_value')
+
+    def cell(addr, value):
+        return Rec(cls='pkg:xltypes:XLCell', address=addr, value=value, formula=None, defined_names=[], need_update=False)
+
+    def copy_model(v):
+        return v       # copy.copy of a native value
+    for label, separate in (('compiled model (the name is bound to the cell object of the cells map)', False),
+                            ('extracted model (the name holds its own copy of the cell)', True)):
+        a1 = cell('S!A1', 1)
+        named = cell('S!A1', 1) if separate else a1
+        model = Rec(cls='pkg:model:Model', cells={'S!A1': a1, 'S!B1': cell('S!B1', 2)}, defined_names={'rate': named}, ranges={}, formulae={})
+        world = World()
+
+        def run(src, **env):
+            env['m'] = model
+            it = Interp(ctx.a, mm, env, inline_pkg=True, world=world, call_models={'ext:copy.copy': copy_model})
+            return it.run(ast.parse(src).body)
+        out = run("m.set_cell_value('rate', 10)")
+        ctx.expect(out.end != 'raise' and a1.f['value'] == 10, setf, f'set through a defined name reaches the cells map: {label}',
+                   f'after set_cell_value("rate", 10) the cell object of the cells map holds {a1.f["value"]!r} ({out.end}): the value was written '
+                   'somewhere else (e.g. on the object held by defined_names), so formulas keep reading the old input')
+        out = run("return m.get_cell_value('rate'), m.get_cell_value('S!A1')")
+        ctx.expect(out.end == 'return' and tuple(out.value) == (10, 10), getf, f'get through name and address agree with the cells map: {label}',
+                   f'get_cell_value("rate"), get_cell_value("S!A1") give {out.value!r}, expected (10, 10)')
+        out = run("m.set_cell_value('S!A1', 11)\nreturn m.get_cell_value('rate')")
+        ctx.expect(out.end == 'return' and out.value == 11 and a1.f['value'] == 11, setf, f'set through the address is seen through the name: {label}',
+                   f'after set_cell_value("S!A1", 11), get_cell_value("rate") gives {out.value!r} and the cell holds {a1.f["value"]!r}')
+        out = run("m.set_cell_value(c, 12)\nreturn m.get_cell_value(c)", c=cell('S!B1', None))
+        ctx.expect(out.end == 'return' and out.value == 12 and model.f['cells']['S!B1'].f['value'] == 12, setf,
+                   f'set / get through a cell object use the cells map: {label}',
+                   f'set_cell_value(XLCell("S!B1"), 12) leaves {model.f["cells"]["S!B1"].f["value"]!r} in the cells map, get gives {out.value!r}')
+        out = run("m.set_cell_value('S!N9', 5)\nreturn m.get_cell_value('S!N9')")
+        newc = model.f['cells'].get('S!N9')
+        ctx.expect(out.end == 'return' and out.value == 5 and isinstance(newc, Rec) and newc.f.get('cls') == 'pkg:xltypes:XLCell', setf,
+                   f'a value set on a new address creates a cell object: {label}',
+                   f'set_cell_value on a new address leaves {newc!r} in the cells map (get gives {out.value!r})')
+    # evaluate: name -> address, result stored in the cell of the cells map
     ev = em.func('Evaluator.evaluate')
-    first = ev.body[0] if ev.body else None
-    while isinstance(first, ast.Expr):   # docstring
-        first = ev.body[ev.body.index(first) + 1]
-    ok = isinstance(first, ast.Assign) and isinstance(first.value, ast.Call) and isinstance(first.value.func, ast.Attribute) \
-        and first.value.func.attr == 'resolve_names'
-    ctx.expect(ok, ev, 'evaluate resolves names first', 'evaluate() no longer resolves a defined name to its cell address first')
-    rn = em.func('Evaluator.resolve_names')
-    rets = value_returns(rn)
-    ok = any(isinstance(r.value, ast.Attribute) and r.value.attr == 'address' for r in rets) and \
-        any(isinstance(r.value, ast.Name) and r.value.id == func_params(rn)[1] for r in rets)
-    ctx.expect(ok, rn, 'resolve_names: name -> cell address, address -> itself',
-               'resolve_names does not return the address of the named cell / the address itself')
-    # result written to the looked-up cell, unconditionally after the evaluation
-    stores = [a for a in walk_local(ev) if isinstance(a, ast.Assign) and any(
-        isinstance(t, ast.Attribute) and t.attr == 'value' for t in a.targets)]
-    ok = False
-    for a in stores:
-        t = next(t for t in a.targets if isinstance(t, ast.Attribute))
-        conds = [c for c in flow.path_conditions(a) if c.kind in ('if', 'while')]
-        if _derives_from_cells(t.value, ev) and not conds and isinstance(a.value, ast.Name):
-            ok = True
-    ctx.expect(ok, ev, 'evaluate stores the result in the looked-up cell',
-               'evaluate() does not unconditionally store the computed value in the cell taken from the cells map')
-    ctx.floor(8, 'name indirection + value accesses')
+    from .corelemma import _Ast
+    fcell = Rec(cls='pkg:xltypes:XLCell', address='S!C1', value=None, need_update=True, defined_names=[],
+                formula=Rec(cls='pkg:xltypes:XLFormula', formula='=w', evaluate=True, terms=[], ast=_Ast(lambda c, a: None, [], result='fresh')))
+    model = Rec(cls='pkg:model:Model', cells={'S!C1': fcell, 'S!A1': cell('S!A1', 3)}, defined_names={'total': fcell, 'inp': cell('S!A1', 99)}, ranges={}, formulae={})
+    world = World()
+    world.globals['pkg:xlfunctions.xl:FUNCTIONS'] = {}
+    mk = Interp(ctx.a, em, {}, inline_pkg=True, world=world)
+    evaluator = mk._construct('pkg:evaluator:Evaluator', [model], {})
+    it = Interp(ctx.a, em, {'e': evaluator}, inline_pkg=True, world=world)
+    out = it.run(ast.parse("return e.evaluate('total'), e.evaluate('inp')").body)
+    ok = out.end == 'return' and out.value[0] == 'fresh' and fcell.f['value'] == 'fresh'
+    ctx.expect(ok, ev, 'evaluate resolves a name to its cell and stores the result in the looked-up cell',
+               f'evaluate("total") gives {out.value!r} and leaves {fcell.f["value"]!r} in the cell of the cells map, expected the fresh result in both')
+    got = out.value[1] if out.end == 'return' else None
+    val = got.f.get('value') if isinstance(got, Rec) else got
+    ctx.expect(val == 3, ev, 'evaluate of a named input reads the cell of the cells map',
+               f'evaluate("inp") gives {got!r}: the value must come from the cell object in the cells map (3), not from the object held by defined_names (99)')
+    ctx.floor(12, 'set / get / evaluate scenarios')
 
 
 def rule_5(ctx):
